@@ -158,6 +158,53 @@ def run_one(R, level, table, entry, cells, db, variant, bulk, label, w=None):
     return rows
 
 
+def run_error_fetch(R, level, table, entry, cells, db, variant, bulk, k, status, echo):
+    """The agent answers request number k of the fetch with an error-status: a table must
+    never come back with cells missing as if it were complete - the fetch raises."""
+    from puresnmp.exc import ErrorResponse
+
+    w = World(level, db)
+    w.prime()
+    w.seam.budget = 4 * (len(cells) + 2) + 14
+    state = {"n": 0, "applied": False}
+
+    def hook(req, resp):
+        state["n"] += 1
+        if state["n"] != k:
+            return resp
+        state["applied"] = True
+        return {"type": 0xA2, "request_id": resp["request_id"], "error_status": status, "error_index": 0 if not echo else 1,
+                "varbinds": [(o, ("null", None)) for o, _ in req["varbinds"]] if echo else []}
+
+    w.agent.pdu_hook = hook
+    try:
+        if variant == "table":
+            res = ("ok", drive(w.client.table(OID(entry))))
+        else:
+            res = ("ok", drive(w.client.bulktable(OID(table), bulk_size=bulk)))
+    except rig.BudgetExceeded:
+        res = ("budget", None)
+    except Exception as exc:  # noqa: BLE001
+        res = ("exc", exc)
+    case = {"level": level, "variant": variant, "bulk": bulk, "table": list(table), "db": wc.enc_db(db), "cells": [[c, list(i)] for (c, i) in sorted(cells)], "error": [k, status, echo]}
+    R.case(("c16-err", variant, bulk, level, k, status, echo, len(cells)), state["applied"])
+    if not state["applied"]:
+        return
+    R.mon["fetches_with_an_error_answer"] += 1
+    if res[0] == "exc" and isinstance(res[1], ErrorResponse):
+        R.mon["error_during_fetch_raised"] += 1
+        return
+    if res[0] == "ok":
+        rows, problems = normalise(res[1], False)
+        if status == 2 and level == "v1" and not problems:
+            return  # v1: noSuchName is how a walk ends
+        if not problems and rows == expected_rows(cells, False):
+            return  # everything was already there
+        R.violation(case, "request %d of the fetch was answered with error-status %d, yet the fetch returned %d of %d rows as if complete" % (k, status, len(rows), len(expected_rows(cells, False))))
+        return
+    R.violation(case, "request %d of the fetch was answered with error-status %d: outcome %r" % (k, status, res[1] if res[0] == "exc" else res[0]))
+
+
 def run(R):
     n = N_CASES[R.tier]
     for i in range(n):
@@ -182,6 +229,11 @@ def run(R):
         if i % 3 == 0:
             run_one(R, level, table, entry, cells, db, "pytable", None, "gen")
             run_one(R, level, table, entry, cells, db, "pybulktable", BULKS[i % 4], "gen")
+        if i % 6 == 2 and len(cells) >= 2:
+            for variant, bulk in (("table", None), ("bulktable", BULKS[i % 2]), ("bulktable", 10)):
+                for k in (1, 2, 3):
+                    status, echo = ((1, False), (5, True), (5, False), (13, True))[(i + k) % 4]
+                    run_error_fetch(R, level if level != "v1" else "v2c", table, entry, cells, db, variant, bulk, k, status, echo)
         if i % 4 == 1:
             # one client, several fetches in a row (incl. the same fetch twice)
             w = World(level, db)
@@ -233,4 +285,9 @@ def replay(R, v):
     table = tuple(c["table"])
     entry = table + (1,)
     cells = {(col, tuple(idx)): db[entry + (col,) + tuple(idx)] for col, idx in c["cells"]}
+    if c.get("error"):
+        k, status, echo = c["error"]
+        run_error_fetch(R, c["level"], table, entry, cells, db, c["variant"], c["bulk"], k, status, echo)
+        R.evaluations += 1
+        return
     run_one(R, c["level"], table, entry, cells, db, c["variant"], c["bulk"], "replay")
